@@ -81,7 +81,7 @@ TESTED_NOT_PROVED = [
     "graph_to_rsmi / its_to_rsmi / gml_to_smart: modelled up to the two RWMol handed to RDKit (observed on the real call by a spy on "
     "graph_to_smi / GraphToMol.graph_to_mol); what RDKit writes from them is not modelled",
 ]
-LEVEL_TEXT = ("Machine-checked proof (Coq, 40 theorems, closed under the global context) over an executable model of the GML writer/reader at "
+LEVEL_TEXT = ("Machine-checked proof (Coq, 41 theorems, closed under the global context) over an executable model of the GML writer/reader at "
               "record level, of its_to_gml / gml_to_its / smart_to_gml / get_rc / its_decompose / ITSGraph at graph level, of h_to_explicit / "
               "h_to_implicit, and of the attribute copying of MolToGraph / GraphToMol: label round trip for every element symbol and every "
               "charge; ITS -> GML -> ITS restores atoms, both-side charges and (before, after) orders for every reaction-centre-shaped ITS, "
@@ -535,10 +535,12 @@ def impl(case):
     if k == "transform":
         from synkit.IO.nx_to_gml import NXToGML
         out = []
+        from ..gen import c10_rxn
         for reindex, eh in case["cfgs"]:
-            text = NXToGML.transform((to_nx(case["L"]), to_nx(case["R"]), to_nx(case["K"])), reindex=reindex,
-                                     explicit_hydrogen=eh)
-            out.append([rec_obs(text_to_rec(text)), parsed_obs(text)])
+            with c10_rxn.RuleSpy(gr_ord_obs) as spy:
+                text = NXToGML.transform((to_nx(case["L"]), to_nx(case["R"]), to_nx(case["K"])), reindex=reindex,
+                                         explicit_hydrogen=eh)
+            out.append([[rec_obs(text_to_rec(text)), parsed_obs(text)], spy.mid()])
         return out
     if k == "its":
         from synkit.IO.chem_converter import its_to_gml
@@ -548,10 +550,12 @@ def impl(case):
             I = to_nx(case["its"])
             c = get_rc(I) if core else I
             r, p = its_decompose(c)
-            text = its_to_gml(to_nx(case["its"]), core=core, reindex=reindex, explicit_hydrogen=eh)
-            out.append([[[[[[gr_ord_obs(c), gr_ord_obs(r), gr_ord_obs(p), rec_obs(text_to_rec(text)), parsed_obs(text)], _py_its_ok(c)],
-                         True, all(d.get("typesGH") is not None for _, d in I.nodes(data=True))],
-                        all((d.get("hcount", 0) or 0) <= 0 for _, d in c.nodes(data=True))], text], _py_rec_okb(text)])
+            from ..gen import c10_rxn
+            with c10_rxn.RuleSpy(gr_ord_obs) as spy:
+                text = its_to_gml(to_nx(case["its"]), core=core, reindex=reindex, explicit_hydrogen=eh)
+            out.append([[[[[[[gr_ord_obs(c), gr_ord_obs(r), gr_ord_obs(p), rec_obs(text_to_rec(text)), parsed_obs(text)], _py_its_ok(c)],
+                          True, all(d.get("typesGH") is not None for _, d in I.nodes(data=True))],
+                         all((d.get("hcount", 0) or 0) <= 0 for _, d in c.nodes(data=True))], text], _py_rec_okb(text)], spy.mid()])
         return out
     if k == "hist":
         return run_hist(case["script"])
@@ -613,13 +617,13 @@ def coq_case(case):
         if k == "parse":
             return "run_parse %s" % enc_rec(case["rec"])
         if k == "transform":
-            return clistL(["run_transform %s %s %s %s %s" % (enc_gr(case["L"]), enc_gr(case["R"]), enc_gr(case["K"]),
+            return clistL(["run_transform2 %s %s %s %s %s" % (enc_gr(case["L"]), enc_gr(case["R"]), enc_gr(case["K"]),
                                                             cbool(a), cbool(b)) for a, b in case["cfgs"]])
         if k == "its":
             if any(c[0] and c[2] for c in case["cfgs"]) and _hh_without_std(case["its"]):
                 return None      # see _hh_without_std: outside the model's domain (oracle only)
             g = enc_gr(case["its"])
-            return "(let g := %s in %s)" % (g, clistL(["run_its6 g %s %s %s" % (cbool(a), cbool(b), cbool(c))
+            return "(let g := %s in %s)" % (g, clistL(["run_its7 g %s %s %s" % (cbool(a), cbool(b), cbool(c))
                                                         for a, b, c in case["cfgs"]]))
         if k == "hist":
             return coq_hist(case["script"])
@@ -1591,7 +1595,7 @@ def oracle(case):
 
 def _rec_of(k, o):
     """the GML record inside one per-configuration observable"""
-    return o[0][0][0][0][0][-2] if k == "its" else o[0][0][-2]
+    return o[0][0][0][0][0][0][-2] if k == "its" else o[0][0][-2]
 
 
 def nontrivial(case, obs):
@@ -1667,10 +1671,10 @@ def distribution(cases, obss):
                         key = "smart_roundtrip_domain:" + str(bool(oo[0][1] and oo[0][2] and oo[0][3] and oo[0][4]))
                         d["cfg_counts"][key] = d["cfg_counts"].get(key, 0) + 1
                     if k == "its":
-                        d["its_ok_exports"][str(bool(oo[0][0][0][0][1]))] = d["its_ok_exports"].get(str(bool(oo[0][0][0][0][1])), 0) + 1
-                        d["text_theorem_domain"] = d.get("text_theorem_domain", 0) + (1 if oo[1] else 0)
+                        d["its_ok_exports"][str(bool(oo[0][0][0][0][0][1]))] = d["its_ok_exports"].get(str(bool(oo[0][0][0][0][0][1])), 0) + 1
+                        d["text_theorem_domain"] = d.get("text_theorem_domain", 0) + (1 if oo[0][1] else 0)
                         if c["cfgs"][o.index(oo)][2]:
-                            key = "explicit_h_theorem_domain:" + str(bool(oo[0][0][0][0][1] and oo[0][0][1]))
+                            key = "explicit_h_theorem_domain:" + str(bool(oo[0][0][0][0][0][1] and oo[0][0][0][1]))
                             d["cfg_counts"][key] = d["cfg_counts"].get(key, 0) + 1
                     if len(rec) == 3:
                         ids = {e[1] for s in rec for e in s[1] if e[0] == 0}
